@@ -53,7 +53,16 @@ class ReservablePriorityReqFilterStore(FilterStore):
         self.reserve_get_queue = []  # Queue for managing reserve_get reservations
         self.reservations_get = []   # List of successful get reservations
         self.reserved_events = []     # Maintains events corresponding to reserved items to preserve item order
+        self._item_arrival = []      # arrival number of each entry of self.items (same index)
+        self._next_arrival = 0
 
+
+    def _sync_item_arrival(self):
+        """Keep the arrival numbers aligned with self.items (items appended to the list directly count as arriving now)."""
+        del self._item_arrival[len(self.items):]
+        while len(self._item_arrival) < len(self.items):
+            self._item_arrival.append(self._next_arrival)
+            self._next_arrival += 1
 
     def reserve_put(self, priority=0):
         """
@@ -230,8 +239,15 @@ class ReservablePriorityReqFilterStore(FilterStore):
         event_in_index = self.reserved_events.index(get_event_to_cancel)
         delta_position = len(self.reserved_events)
         #shifting the item
+        self._sync_item_arrival()
         item_to_shift = self.items.pop(event_in_index)
-        self.items.insert(delta_position-1, item_to_shift)
+        arrival = self._item_arrival.pop(event_in_index)
+        # back among the unreserved items, in arrival order
+        new_index = delta_position-1
+        while new_index < len(self.items) and self._item_arrival[new_index] < arrival:
+            new_index += 1
+        self.items.insert(new_index, item_to_shift)
+        self._item_arrival.insert(new_index, arrival)
         #deleting the event
         self.reserved_events.pop(event_in_index)#if t is removed, then a waiting event can be succeeded, if any
 
@@ -335,10 +351,15 @@ class ReservablePriorityReqFilterStore(FilterStore):
         if len(self.reservations_get) < len(self.items):
             # Successful reservation; add to reservations list
             item_len = len(self.reserved_events)
+            self._sync_item_arrival()
             #check if there any items that satisfy filter condition in other items thatare not already reserved
-            for item in self.items[item_len:]:
+            for item_index in range(item_len, len(self.items)):
+                item = self.items[item_index]
 
                 if event.filter(item):
+                  # reserve the matching item itself: move it to the end of the reserved block
+                  self.items.insert(item_len, self.items.pop(item_index))
+                  self._item_arrival.insert(item_len, self._item_arrival.pop(item_index))
 
 
                   self.reservations_get.append(event)
@@ -448,7 +469,9 @@ class ReservablePriorityReqFilterStore(FilterStore):
         self.reservations_get.remove(reserved_event)
 
         # Retrieve the assigned item and remove it from storage
+        self._sync_item_arrival()
         assigned_item = self.items.pop(item_index)
+        self._item_arrival.pop(item_index)
         self.reserved_events.pop(item_index)
 
         if assigned_item is None:
@@ -572,4 +595,5 @@ class ReservablePriorityReqFilterStore(FilterStore):
             item.put_time=self.env.now
             #print(f"Time is {self.env.now}")
             self.items.append(item)
+            self._sync_item_arrival()
             return True  # Successfully added item
